@@ -14,6 +14,9 @@ type Scope struct {
 	// is defined first and no chance to be poped from 'locals', we
 	// can add externalRefs to record
 	externalRefs map[int]int
+	// joinedDepths - depth levels opened with BeginJoinedScope: a level that is technically a
+	// scope of its own but belongs to the same block of the program as the level below
+	joinedDepths map[int]bool
 }
 
 type LocalSymbol struct {
@@ -29,7 +32,16 @@ func NewScope() *Scope {
 		currentDepth: 0,
 		values:       []Element{},
 		externalRefs: map[int]int{},
+		joinedDepths: map[int]bool{},
 	}
+}
+
+// BeginJoinedScope - like BeginScope, for the statements of a method / program body: they sit
+// in the same block as the body's 输入 names, 此 and hoisted definitions (declared one level
+// below), so declaring one of those names again is a redeclaration, not shadowing
+func (sp *Scope) BeginJoinedScope() {
+	sp.currentDepth++
+	sp.joinedDepths[sp.currentDepth] = true
 }
 
 func (sp *Scope) BeginScope() {
@@ -37,6 +49,7 @@ func (sp *Scope) BeginScope() {
 }
 
 func (sp *Scope) EndScope() {
+	delete(sp.joinedDepths, sp.currentDepth)
 	sp.currentDepth--
 
 	// pop all deeper values
@@ -114,11 +127,19 @@ func (sp *Scope) getSymbolID(name string) int {
 
 // declareValue - add new symbol to scope
 func (sp *Scope) declareValue(name string, value Element, isConst bool) error {
+	// names of the level below count as names of this level when the two are one block
+	lowest := sp.currentDepth
+	if sp.joinedDepths[sp.currentDepth] {
+		lowest = sp.currentDepth - 1
+	}
 	for i := sp.localCount - 1; i >= 0; i-- {
-		if sp.locals[i].depth < sp.currentDepth {
+		if sp.locals[i].depth < lowest {
 			break
 		}
 		if sp.locals[i].name == name {
+			if sp.locals[i].depth == lowest && lowest < sp.currentDepth {
+				return zerr.NameRedeclared(name)
+			}
 			// redeclaration in the same depth leval is not allowed
 			/*e.g.:
 			{
